@@ -30,7 +30,10 @@ use core::cell::Cell;
 use core::ptr;
 use core::slice::Iter;
 use core::sync::atomic::Ordering::*;
+#[cfg(not(arc_swap_verif))]
 use core::sync::atomic::{AtomicPtr, AtomicUsize};
+#[cfg(arc_swap_verif)]
+use crate::verif::{AtomicPtr, AtomicUsize};
 
 #[cfg(feature = "experimental-thread-local")]
 use core::cell::OnceCell;
@@ -367,5 +370,90 @@ mod tests {
     #[test]
     fn new_empty() {
         assert!(Node::get_thread().is_empty());
+    }
+}
+
+#[cfg(arc_swap_verif)]
+pub(crate) mod verif_list {
+    use super::*;
+    use alloc::vec::Vec;
+
+    #[derive(Clone, Debug)]
+    pub struct NodeInfo {
+        pub addr: usize,
+        pub in_use: usize,
+        pub active_writers: usize,
+        pub control: usize,
+        pub slots: Vec<usize>,
+        /// (role, address) of every atomic in the node
+        pub layout: Vec<(&'static str, usize)>,
+    }
+
+    /// Snapshot of all nodes (newest first). Reads the real, mo-latest values.
+    pub fn nodes() -> Vec<NodeInfo> {
+        let mut out = Vec::new();
+        Node::traverse::<(), _>(|n| {
+            out.push(n.verif_info());
+            None
+        });
+        out
+    }
+
+    /// Node owned by the calling thread, if any.
+    pub fn thread_node() -> Option<usize> {
+        THREAD_HEAD
+            .try_with(|h| h.node.get().map(|n| n as *const Node as usize))
+            .ok()
+            .flatten()
+    }
+
+    /// Helping generation counter of the calling thread (None once its TLS is gone).
+    pub fn generation() -> Option<usize> {
+        THREAD_HEAD
+            .try_with(|h| h.helping.verif_generation().get())
+            .ok()
+    }
+
+    /// Preset the helping generation counter of the calling thread (must stay a multiple of 4).
+    pub fn set_generation(g: usize) -> bool {
+        THREAD_HEAD
+            .try_with(|h| h.helping.verif_generation().set(g))
+            .is_ok()
+    }
+
+    /// Forget (and free) all nodes. Caller guarantees no thread owns a node and no guard lives.
+    pub unsafe fn reset_nodes() {
+        let mut cur = LIST_HEAD.swap(ptr::null_mut(), SeqCst);
+        while !cur.is_null() {
+            let next = (*cur).next as *mut Node;
+            drop(Box::from_raw(cur));
+            cur = next;
+        }
+    }
+
+    impl Node {
+        fn verif_info(&self) -> NodeInfo {
+            let a = |r: &AtomicUsize| r as *const _ as usize;
+            let mut layout = Vec::new();
+            let mut slots = Vec::new();
+            for s in self.fast_slots() {
+                layout.push(("fast_slot", a(&s.0)));
+                slots.push(s.0.load(Relaxed));
+            }
+            layout.push(("help_slot", a(&self.helping_slot().0)));
+            slots.push(self.helping_slot().0.load(Relaxed));
+            layout.push(("in_use", a(&self.in_use)));
+            layout.push(("active_writers", a(&self.active_writers)));
+            let (control, hl) = self.helping.verif_layout();
+            layout.extend(hl);
+            NodeInfo {
+                addr: self as *const _ as usize,
+                in_use: self.in_use.load(Relaxed),
+                active_writers: self.active_writers.load(Relaxed),
+                control,
+                slots,
+                layout,
+            }
+        }
     }
 }
